@@ -23,7 +23,7 @@ RULE = (
     "<= alpha, else N (also N = 1,500 and 5,000 with pilots that cross late); (b) simulation branch with numpy's RandomState replaced by a scripted object: every tail the generator "
     "could return (reps=1) and every window of 3 consecutive tails (reps=3) x quantile x seed: if the supplied prefix already "
     "crosses alpha at k the estimate is k, and it always lies in 1..N; also with the real generator for a seed menu; (c) "
-    "Audit.find_sample_size given a sample of manual records (per-assertion data tiled; contest = max over unconfirmed assertions); "
+    "Audit.find_sample_size given a sample of manual records (per-assertion data tiled; contest = max over unconfirmed assertions; with simulations on, records that cross at k < len give k for every seed / reps / quantile of a menu); "
     "Assertion.find_sample_size for comparison/ONEAudit (error-free values with one- and two-vote overstatements every "
     "floor(1/r) positions from 0; also Audit.find_sample_size for a ONEAudit contest with pooled batches before any card is examined) and polling (all tallies, interleaved), Contest/Audit.find_sample_size (= max over "
     "assertions) and raire.sample_estimator.sample_size; (d) interleave_values for all (a,b,c) in [0..6]^3: a permutation of "
@@ -34,7 +34,7 @@ ASSUMPTIONS = [
     "for super-majority (assorter bound != 1) the documentation does not pin the 'one-vote' value; only plurality-type assertions are judged in (c)",
     "simulation estimates are judged only by the prefix-crossing clause and by range (the quantile convention is not part of the property)",
 ]
-REQUIRE_VAC = ["estimates_strictly_inside", "estimates_equal_N", "prefix_crossing_cases", "scripted_rng_runs", "polling_tallies", "interleave_cases", "contest_level_cases", "oneaudit_audit_level_cases"]
+REQUIRE_VAC = ["estimates_strictly_inside", "estimates_equal_N", "prefix_crossing_cases", "scripted_rng_runs", "polling_tallies", "interleave_cases", "contest_level_cases", "oneaudit_audit_level_cases", "audit_level_prefix_crossing_cases"]
 ALPHAS = [0.05, 0.2, 0.5]
 
 
@@ -345,6 +345,45 @@ def judge_audit_with_data(m, N, tallies, L, alpha):
     return [], got
 
 
+def judge_audit_prefix_sim(m, N, k_win, L, alpha):
+    """Audit.find_sample_size with a sample of manual records and simulations switched on (reps set): when the records in
+    hand already cross the risk limit at position k < len(sample), the estimate is k for every seed, repetition count and
+    quantile (every replication starts with those records)"""
+    out = []
+    with warnings.catch_warnings():
+        warnings.simplefilter("ignore")
+        try:
+            con, asn, audit, cvrs = comparison_contest(N, k_win, Audit.AUDIT_TYPE.CARD_COMPARISON, m, alpha)
+            asn.set_margin_from_cvrs(audit, cvrs)
+            cvr_sample = cvrs[:L]
+            mvr_sample = [CVR(id=c.id, votes={k_: dict(v) for k_, v in c.votes.items()}) for c in cvr_sample]
+            for c in cvr_sample:
+                c.sampled = True
+            con.sample_threshold = 10 ** 9
+            d, u = asn.mvrs_to_data(mvr_sample, cvr_sample)
+            pop = (list(d) * math.ceil(N / len(d)))[:N]
+            twin = NonnegMean(test=con.test, estim=con.estim, bet=con.bet, u=u, N=N, t=1 / 2, g=con.g, **con.test_kwargs)
+            k = first_crossing(twin.test(np.array(pop))[1], alpha, N)
+            if not (k < len(d)):
+                return [], None
+            for reps, q, seed in ((1, 0.5, 1), (3, 0.1, 7), (3, 0.9, 1234567890), (7, 0.5, 0)):
+                con2, asn2, audit2, cvrs2 = comparison_contest(N, k_win, Audit.AUDIT_TYPE.CARD_COMPARISON, m, alpha)
+                asn2.set_margin_from_cvrs(audit2, cvrs2)
+                for c in cvrs2[:L]:
+                    c.sampled = True
+                con2.sample_threshold = 10 ** 9
+                audit2.reps, audit2.quantile, audit2.sim_seed = reps, q, seed
+                audit2.find_sample_size(contests={"con": con2}, cvrs=cvrs2, mvr_sample=[CVR(id=c.id, votes={k_: dict(v) for k_, v in c.votes.items()}) for c in cvrs2[:L]],
+                                        cvr_sample=cvrs2[:L])
+                if con2.sample_size != k:
+                    out.append(("C16|audit-with-data|prefix-crossing", f"N={N}, {L} error-free records cross alpha={alpha} at position {k}; with reps={reps}, quantile={q}, seed={seed} "
+                                f"Audit.find_sample_size gives {con2.sample_size}"))
+                    break
+        except Exception as e:  # noqa
+            return [(f"C16|audit-with-data|exception|{type(e).__name__}", f"{type(e).__name__}: {str(e)[:80]}")], None
+    return out, k
+
+
 def judge_contest_wide(m, ncand, alpha, hit):
     """a plurality contest with ncand candidates (ncand-1 assertions): Contest.find_sample_size on a sample of manual records
     = the largest per-assertion estimate, also when the costly assertion is one with a comfortable reported margin"""
@@ -436,8 +475,10 @@ def run_shard(sh, rec):
     if kind == "det":
         _, mi, N, ks, L = sh
         m = METHODS[mi]
-        for k in ks:
-            grid = [str(F(i, k)) for i in range(k + 1)]
+        grids = [[str(F(i, k)) for i in range(k + 1)] for k in ks]
+        if m[0] == "kaplan_kolmogorov":  # the Kaplan tests need no upper bound: pilot values above the test's u attribute are legitimate
+            grids += [["0", "1", "2"], ["1/2", "3/2", "3"]]
+        for grid in grids:
             for n in range(1, L + 1):
                 for x in itertools.product(grid, repeat=n):
                     rec.state()
@@ -583,6 +624,21 @@ def run_shard(sh, rec):
                             rec.vac("audit_with_data_cases")
                             for key, what in v:
                                 rec.violate(key, what, {"kind": "auditdata", "m": mi, "N": N, "tallies": [a_, b_, c_], "alpha": alpha, "L": L})
+    elif kind == "prefixsim":
+        _, mi = sh
+        m = METHODS[mi]
+        for N in (12, 20, 30):
+            for k_win in range(N // 2 + 1, N + 1):
+                for L in range(2, min(N, 13)):
+                    for alpha in (0.05, 0.2, 0.5):
+                        rec.state()
+                        v, k = judge_audit_prefix_sim(m, N, k_win, L, alpha)
+                        rec.trans()
+                        rec.evals(5)
+                        if k is not None:
+                            rec.vac("audit_level_prefix_crossing_cases")
+                        for key, what in v:
+                            rec.violate(key, what, {"kind": "prefixsim", "m": mi, "N": N, "k_win": k_win, "L": L, "alpha": alpha})
     elif kind == "wide":
         _, mi = sh
         for ncand in (4, 12, 14):
@@ -641,6 +697,7 @@ def explore(tier, seed):
             sh.append(("contest", mi, N))
         sh.append(("wide", mi))
         sh.append(("detbig", mi))
+        sh.append(("prefixsim", mi))
     return core.pmap(run_shard, sh, seed, progress="C16")
 
 
@@ -659,6 +716,8 @@ def run_case(case):
         return judge_polling(METHODS[case["m"]], case["N"], case["n_win"], case["n_lose"], case["alpha"])[0]
     if k == "contest":
         return judge_contest_level(METHODS[case["m"]], case["N"], tuple(case["tallies"]), case["alpha"], case["r1"])[0]
+    if k == "prefixsim":
+        return judge_audit_prefix_sim(METHODS[case["m"]], case["N"], case["k_win"], case["L"], case["alpha"])[0]
     if k == "auditdata":
         return judge_audit_with_data(METHODS[case["m"]], case["N"], tuple(case["tallies"]), case["L"], case["alpha"])[0]
     if k == "wide":
